@@ -17,16 +17,20 @@ def run(chk):
     chk.rule("MEMBER", "every append to the returned path takes path[i], *it or a local copy of one - never a computed vertex")
     chk.rule("FORWARD", "cursors feeding appends inside loops are only incremented")
     chk.rule("MONO", "within one function every assignment to flags[..] stores the same literal")
+    chk.rule("END.pinned", "SimplifyPath: end-point distances of an open path are pinned to MAX_DBL and every later write distSqr[V] is "
+             "guarded on the same V (guard interpreted for V = 0 and V = high)")
     chk.rule("ERASE", "StripDuplicates calls only erase / pop_back on its path")
     for cfg in cfgs:
         db = AstDB(cfg)
         e11.rule_membership(db, chk, cfg)
         e11.rule_monotone_flags(db, chk, cfg)
         e11.rule_erase_only(db, chk, cfg)
+        e11.rule_pinned_ends(db, chk, cfg)
     n = len(cfgs)
     chk.floor("MEMBER", 12 * n)
     chk.floor("MONO", 3 * n)
     chk.floor("ERASE", 2 * n)
+    chk.floor("END.pinned", 6 * n)
     chk.explanation = (
         "Subsequence-by-construction: the utilities never compute a vertex, they copy input elements selected by flags or iterators; that, and "
         "the monotonicity of the flag arrays, are syntactic facts of the instantiated templates (int64_t and double). The one place where a "
